@@ -499,7 +499,7 @@ def build_linear_layer(linear_input, feature_configs, model_config,
   """
   layer_name = '{}_{}'.format(LINEAR_LAYER_NAME, submodel_index)
 
-  linear_input = keras.layers.Concatenate(axis=1)(linear_input)
+  linear_input = keras.layers.Concatenate(axis=1, dtype=dtype)(linear_input)
   num_input_dims = len(feature_configs)
   kernel_initializer = keras.initializers.Constant([1.0 / num_input_dims] *
                                                       num_input_dims)
@@ -837,7 +837,8 @@ def build_linear_combination_layer(ensemble_outputs, model_config, dtype):
   """
   if isinstance(ensemble_outputs, list):
     num_input_dims = len(ensemble_outputs)
-    linear_input = keras.layers.Concatenate(axis=1)(ensemble_outputs)
+    linear_input = keras.layers.Concatenate(
+        axis=1, dtype=dtype)(ensemble_outputs)
   else:
     num_input_dims = int(ensemble_outputs.shape[1])
     linear_input = ensemble_outputs
